@@ -317,7 +317,7 @@ func (p *partition) startReplicatorLoop(nodeID models.NodeID, replicator Replica
 	p.loopWaiter.Add(1)
 	go func() {
 		defer p.loopWaiter.Done()
-		for p.running.Load() && p.isActiveReplicator(nodeID, replicator) {
+		for p.running.Load() && p.ctx.Err() == nil && p.isActiveReplicator(nodeID, replicator) {
 			p.replica(nodeID, replicator)
 		}
 		p.mutex.Lock()
